@@ -148,7 +148,8 @@ def _ledger_steps(cfg, f):
                     ld = _loaded(_nb_of(init[0]))
                     acc = peel(c[2][0])
                     e = peel(c[2][1])
-                    whole = e[0] == "bound" and e[1] == "elem" and [lp for lp in q.loops_yielding(P, f, e) if not q.chain_adapters(lp[1])]
+                    whole = e[0] == "bound" and e[1] == "elem" and [lp for lp in q.loops_yielding(P, f, e)
+                                                                        if set(q.chain_adapters(lp[1])) <= {"cloned", "copied", "iter", "into_iter"}]
                     if ld and (acc == init[0] or acc[0] == "cycle") and (c[3] or "").startswith("<cw_utils::NativeBalance as std::ops::Sub<cosmwasm_std::Coin>") and \
                             whole and len(q.loops_yielding(P, f, e)) == 1 and len(c) > 4 and c[4] and q.error_propagates(P, f, c[4][1]):
                         st.update(kind="debit", amount=e[2], load=ld)
